@@ -149,6 +149,65 @@ def mask_rule(ctx, prog):
                    [site(b, cons[0].bb)],
                    what=f'the {side} bound of a pushed key range is not applied to the rows of a batch: rows outside the range are returned')
 
+    R9 = 'C13-R9'
+    ctx.rule(R9, 'the mask is applied to EVERY batch: whether next_batch_inner evaluates the match on KeyRange::start / ::end does not depend '
+                 'on state the iterator changes as it goes (a field of RowSetIterator that this function writes, e.g. a "first batch" flag). A '
+                 'block of the key column is handed out in several batches, so rows below the lower bound can sit in any batch of the block '
+                 'the scan was seeked to')
+    ITER = 'storage::secondary::rowset::rowset_iterator::RowSetIterator::'
+    written = set()
+    for bb, st in b.stmts():
+        if st['s'] != 'assign':
+            continue
+        written |= {f for f in pl_fields(st['lhs']) if f.startswith(ITER)}
+        rv = st['rv']
+        if rv.get('rv') == 'ref' and rv.get('mut'):
+            fs = [f for f in pl_fields(rv['pl']) if f.startswith(ITER)]
+            if fs:
+                written.add(fs[-1])
+    reads = [c.bb for c in b.calls if re.search(r'ColumnIterator.*::next_batch$|::next_batch$', c.fn or '') and 'rowset_iterator' not in (c.fn or '')]
+    ctx.anchor(R9, 'next_batch_inner: reads of the column iterators', reads)
+    for side in ('start', 'end'):
+        for i, t in sw.get(side, []):
+            gated = {}
+            for s_i, bl in enumerate(b.blocks):
+                ts = bl['term']
+                if ts['k'] != 'switch' or bl['cleanup'] or s_i == i or ts['discr']['k'] == 'const' or not b.dominates(s_i, i):
+                    continue
+                succ = list(dict.fromkeys([x for _, x in ts['targets']] + [ts['otherwise']]))
+                def gets_to(x, y):                  # within this pass: without coming through the test again
+                    return x == y or y in b.reachable_from([x], avoid={s_i})
+                if all(gets_to(x, i) for x in succ):
+                    continue                        # the match runs whichever way this test goes
+                # a test that also decides whether the batch is read at all (end of the scan, the loop over the columns) is not the
+                # point: the mask must not be MORE conditional than the read of the key column
+                if all(b.dominates(s_i, r) and not all(gets_to(x, r) for x in succ) for r in reads):
+                    continue
+                flds = set()
+                for x in origin_locals(b, ts['discr']['pl']['l'], depth=6):
+                    for _, kind, payload in local_defs(b, x):
+                        if kind == 'assign':
+                            flds |= {f for pl in operand_places(payload) + ([payload['pl']] if payload.get('rv') == 'ref' else [])
+                                     for f in pl_fields(pl) if f.startswith(ITER)}
+                        elif re.search(r'mem::(take|replace|swap)$|Option::<.*>::(take|replace|insert|get_or_insert)$|Cell::<.*>::(get|replace|take|set)$'
+                                       r'|atomic::Atomic\w+::(load|swap|fetch_\w+|compare_exchange)$', payload.get('fn') or ''):
+                            # the value was pulled out of a piece of state
+                            for a_ in payload.get('args', []):
+                                if a_['k'] != 'const':
+                                    for y in origin_locals(b, a_['pl']['l'], depth=3):
+                                        for __, k2, p2 in local_defs(b, y):
+                                            if k2 == 'assign':
+                                                flds |= {f for pl in operand_places(p2) + ([p2['pl']] if p2.get('rv') == 'ref' else [])
+                                                         for f in pl_fields(pl) if f.startswith(ITER)}
+                hit = flds & written
+                if hit:
+                    gated[s_i] = sorted(x.rsplit('::', 1)[-1] for x in hit)
+            ctx.ob(R9, f'mask·{side}·applied-to-every-batch', not gated,
+                   f'match on KeyRange::{side} (block {i}) is conditional on tests of iterator state written in this function: {gated}; '
+                   f'fields written: {sorted(x.rsplit("::", 1)[-1] for x in written)}', [site(b, i)],
+                   what=f'the {side} bound of a pushed key range is applied to some batches only (a flag of the iterator decides): a block is '
+                        'handed out in several batches, so rows outside the range come back from the batches that skip the mask')
+
 
 def first_effect(b, bb, limit=12):
     """first block, following plain gotos from bb, that ends in something other than a goto"""
@@ -307,6 +366,31 @@ def conservative_seek_rule(ctx, prog):
                     cmps.append((bb, rv['op'], 'first?key'))
                 elif l_key and r_first:
                     cmps.append((bb, {'Lt': 'Gt', 'Le': 'Ge', 'Gt': 'Lt', 'Ge': 'Le'}[rv['op']], 'first?key'))
+    R10 = 'C13-R10'
+    ctx.rule(R10, 'the first key of a block is recorded only under the option record_first_key; without it the index entry carries an empty '
+                  'key, so start_rowid decodes a first key only behind a test that it is there (is_empty / len) - no recorded key, no seek, '
+                  'the mask does the filtering')
+    decs = [c for c in b.calls if (c.fn or '').endswith('PrimitiveFixedWidthEncode::decode')]
+    if ctx.anchor(R10, 'start_rowid: decode of a block\'s first key', decs):
+        tests = []
+        for i, bl in enumerate(b.blocks):
+            t = bl['term']
+            if t['k'] != 'switch' or bl['cleanup'] or t['discr']['k'] == 'const':
+                continue
+            src = origin_locals(b, t['discr']['pl']['l'], depth=4)
+            for c in b.calls:
+                if c.dest['l'] in src and re.search(r'::(is_empty|len)$', c.fn or '') and c.args and c.args[0]['k'] != 'const':
+                    for x in origin_locals(b, c.args[0]['pl']['l'], depth=4):
+                        for _, kind, payload in local_defs(b, x):
+                            if kind == 'assign' and any(f.endswith('::first_key') for pl in operand_places(payload) + ([payload['pl']] if payload.get('rv') == 'ref' else [])
+                                                        for f in pl_fields(pl)):
+                                tests.append(i)
+        ok = bool(tests) and all(b.dominated_by_any(set(tests), c.bb) for c in decs)
+        ctx.ob(R10, 'start_rowid·first-key-present-before-decode', ok,
+               f'first_key decoded at {[c.bb for c in decs]}; tests of its presence before: {sorted(set(tests))}', [site(b, c.bb) for c in decs],
+               what='start_rowid decodes the first key of every block although it is only recorded under record_first_key: with that option '
+                    'off, any key range on the disk engine dies (advance out of bounds) where the in-memory engine answers')
+
     if ctx.anchor(R8, 'start_rowid: comparison of a block\'s first key with the start key', cmps):
         for bb, op, _ in cmps:
             ctx.ob(R8, 'start_rowid·stops-at-first-key>=start', op == 'Ge',
